@@ -29,6 +29,7 @@ type Ctx struct {
 	wparams        map[*ssa.Function]map[int]bool
 	transient      map[*types.Named]bool
 	done           map[string]bool
+	addrUse        map[string][2]string
 	denomOrd       map[string]int
 	maccVar        string
 	claimStepsDone bool
